@@ -1,7 +1,7 @@
 #!/bin/bash
 # run every check of a tier once; prints one line per check
 tier=${1:-quick}
-cd /verif
+cd "$(dirname "$(readlink -f "$0")")"
 for i in $(seq -w 1 20); do
   id=C$i
   s=$(date +%s)
